@@ -1221,9 +1221,16 @@ func (s Subtitles) WriteToSSA(o io.Writer) (err error) {
 		}
 		sort.Strings(keys)
 		for _, k := range keys {
+			// A map entry without a style has nothing to write
+			if s.Styles[k] == nil {
+				continue
+			}
 			var ss = newSSAStyleFromStyle(*s.Styles[k])
+			// A name is written once, even when several entries carry it
+			if _, ok := styles[ss.name]; !ok {
+				styleNames = append(styleNames, ss.name)
+			}
 			styles[ss.name] = ss
-			styleNames = append(styleNames, ss.name)
 		}
 
 		// Loop through styles in a fixed order, otherwise the order of the format's columns depends on the
